@@ -41,10 +41,21 @@ func genDegenerate(g kit.G, c *kit.Corpus, depth int) kit.QSpec {
 		case 5:
 			return kit.QSpec{Op: "repoids"}
 		case 6:
-			if g.Bool(50, "bremp") {
+			switch g.U(4, "bremp") {
+			case 0:
 				return kit.QSpec{Op: "branchesrepos"}
+			case 1:
+				return kit.QSpec{Op: "branchesrepos", BR: []kit.BRSpec{{Branch: "HEAD"}}}
+			default:
+				// several entries of which some, but not all, are empty
+				r := &c.Repos[g.U(len(c.Repos), "brr")]
+				full := kit.BRSpec{Branch: kit.Pick(g, r.Branches, "brb").Name, IDs: []uint32{r.ID}}
+				empty := kit.BRSpec{Branch: kit.Pick(g, []string{"HEAD", "dev", "nope"}, "brb2")}
+				if g.Bool(50, "brorder") {
+					return kit.QSpec{Op: "branchesrepos", BR: []kit.BRSpec{empty, full}}
+				}
+				return kit.QSpec{Op: "branchesrepos", BR: []kit.BRSpec{full, empty, empty}}
 			}
-			return kit.QSpec{Op: "branchesrepos", BR: []kit.BRSpec{{Branch: "HEAD"}}}
 		case 7:
 			return kit.QSpec{Op: "lang", Pat: kit.Pick(g, []string{"Go", "Rust", "", "Text"}, "dl")}
 		default:
